@@ -70,6 +70,19 @@ def ctx_clash_trait():
             "impl Clash for @E@ {}"]
 
 
+def ctx_derive_alias():
+    # other derive macros in scope under the names of the built-in derives (the only derive macro available offline is this
+    # crate's own): a bare `#[derive(Clone)]` on a generated item would run the foreign macro
+    names = ["Clone", "Copy", "Debug", "Default", "Eq", "Hash", "Ord", "PartialEq", "PartialOrd"]
+    return ["#[allow(unused_imports)] use ::enum_tools::EnumTools as %s;" % n for n in names]
+
+
+def ctx_forbid():
+    # lint levels that cannot be overridden further down: an `#[allow(..)]` of the same lint on a generated item is then a
+    # hard error (E0453), whether or not the item contains what the lint is about
+    return ["#![forbid(unsafe_code)]"]
+
+
 CONTEXTS = {
     "plain": [],
     "no_prelude": ["#![no_implicit_prelude]"],
@@ -80,10 +93,12 @@ CONTEXTS = {
     "values": ctx_values() + ctx_consts(),
     "siblings": ctx_siblings(),
     "clash_trait": ctx_clash_trait(),
+    "derive_alias": ctx_derive_alias(),
+    "forbid": ctx_forbid(),
     "all_types": ["#![no_implicit_prelude]"] + ctx_types() + ctx_mods() + ctx_macros() + ctx_consts(),
     "all_traits": ["#![no_implicit_prelude]"] + ctx_traits() + ctx_mods() + ctx_macros() + ctx_values() + ctx_consts(),
     # "no_std": the declaration lives in the #![no_std] library of the corpus package (see corpus_rt.write_crate)
     "no_std": [],
     "no_std_all": ["#![no_implicit_prelude]"] + ctx_types() + ctx_mods() + ctx_macros() + ctx_consts(),
 }
-ORDER = ["plain", "no_prelude", "types", "traits", "mods", "macros", "values", "siblings", "clash_trait", "all_types", "all_traits", "no_std", "no_std_all"]
+ORDER = ["plain", "no_prelude", "types", "traits", "mods", "macros", "values", "siblings", "clash_trait", "derive_alias", "forbid", "all_types", "all_traits", "no_std", "no_std_all"]
